@@ -17,6 +17,9 @@ use crate::vterm::VTerm;
 fn check_tokens(rows: &[String], log: &[String], cols: usize, ctx: &str) -> Result<usize, Fail> {
     let mut at = 0usize;
     for (n, line) in log.iter().enumerate() {
+        if line.is_empty() {
+            continue; // blank log lines carry no token: they are counted (see `check_blanks`)
+        }
         let want = rows_of(std::slice::from_ref(line), cols);
         // exactly once: positions at which the line's wrapped rows occur
         let count = if want.len() <= rows.len() { (0..=rows.len() - want.len()).filter(|i| rows[*i..*i + want.len()] == want[..]).count() } else { 0 };
@@ -35,6 +38,23 @@ fn check_tokens(rows: &[String], log: &[String], cols: usize, ctx: &str) -> Resu
     Ok(at)
 }
 
+/// Blank log lines (`println("")`): every one emitted is on the terminal exactly once. No bar row of
+/// the multi harness is ever blank, so the blank rows are counted.
+fn check_blanks(rows: &[String], log: &[String], ctx: &str) -> Result<(), Fail> {
+    let want = log.iter().filter(|l| l.is_empty()).count();
+    // (the emulator reports no blank rows at the very end of the screen: blank lines that nothing follows yet
+    // cannot be told from an untouched screen)
+    let trailing = log.iter().rev().take_while(|l| l.is_empty()).count();
+    let got = rows.iter().filter(|r| r.is_empty()).count();
+    if got + trailing < want {
+        return Err(Fail::new("log_erased_or_damaged", format!("{ctx}: {want} blank log line(s) were emitted ({trailing} of them last), the terminal holds {got} blank row(s); rows {rows:?}")));
+    }
+    if got > want {
+        return Err(Fail::new("log_duplicated", format!("{ctx}: {want} blank log line(s) were emitted, the terminal holds {got} blank rows; rows {rows:?}")));
+    }
+    Ok(())
+}
+
 fn token_line(n: usize, pad: &str) -> String {
     // "~<n>~" ('~' occurs in no other generated text) + padding that keeps the requested length class
     let p: String = pad.chars().filter(|c| c.is_ascii_alphanumeric()).collect();
@@ -44,7 +64,10 @@ fn token_line(n: usize, pad: &str) -> String {
 /// Replace every log text of a multi history by unique token lines.
 fn tokenize_multi(ops: &[MOp]) -> Vec<MOp> {
     let mut n = 0;
-    let mut tok = |t: &str| -> String {
+    let mut tok = |t: &str, keep_blank: bool| -> String {
+        if t.is_empty() && keep_blank {
+            return String::new(); // println(""): one blank line, counted instead of tagged
+        }
         let lines: Vec<String> = println_lines(t)
             .iter()
             .map(|l| {
@@ -56,10 +79,10 @@ fn tokenize_multi(ops: &[MOp]) -> Vec<MOp> {
     };
     ops.iter()
         .map(|op| match op {
-            MOp::MpPrintln(t) => MOp::MpPrintln(tok(t)),
-            MOp::BarPrintln(s, t) => MOp::BarPrintln(*s, tok(t)),
-            MOp::MpSuspend(ls) => MOp::MpSuspend(ls.iter().map(|l| tok(l)).collect()),
-            MOp::BarSuspend(s, ls) => MOp::BarSuspend(*s, ls.iter().map(|l| tok(l)).collect()),
+            MOp::MpPrintln(t) => MOp::MpPrintln(tok(t, true)),
+            MOp::BarPrintln(s, t) => MOp::BarPrintln(*s, tok(t, true)),
+            MOp::MpSuspend(ls) => MOp::MpSuspend(ls.iter().map(|l| tok(l, false)).collect()),
+            MOp::BarSuspend(s, ls) => MOp::BarSuspend(*s, ls.iter().map(|l| tok(l, false)).collect()),
             o => o.clone(),
         })
         .collect()
@@ -91,6 +114,9 @@ fn run_multi(c: &MultiCase) -> CaseResult {
         }
         let rows = it.vt.rows();
         let end = check_tokens(&rows, &it.model.log, it.cols, &ctx).map_err(|f| sig_kind(f, &it))?;
+        if !it.model.bottom_ever {
+            check_blanks(&rows, &it.model.log, &ctx).map_err(|f| sig_kind(f, &it))?;
+        }
         // above the progress region: no live member's row above the last log row
         if !out.frames.is_empty() {
             for e in it.model.entries.iter().filter(|e| !e.zombie) {
@@ -122,6 +148,7 @@ fn run_multi(c: &MultiCase) -> CaseResult {
     v.label_if(it.model.log.iter().any(|l| console::measure_text_width(l) > it.cols), "log_wraps");
     v.label_if(c.hz.is_some() && c.step_ms == 0, "frozen_clock_rate_limited");
     v.label_if(it.rows <= 8, "terminal_of_at_most_8_rows");
+    v.label_if(it.model.log.iter().any(|l| l.is_empty()), "blank_log_line");
     Ok(v)
 }
 
